@@ -4,7 +4,7 @@
            | known:<class> (violates; member of a class listed in known_findings.json)
            | decode-error (harness bug, never a verdict) *)
 From Coq Require Import List String.
-From AV Require Import Model.Sexp Model.CaseC13 Model.CaseC16 Model.CaseC20.
+From AV Require Import Model.Sexp Model.CaseC13 Model.CaseC16 Model.CaseC20 Model.CaseC09.
 Import ListNotations.
 Open Scope string_scope.
 
@@ -15,6 +15,7 @@ Definition check_case (e : sexp) : sexp :=
          (if p =? "C13" then check_C13 args
           else if p =? "C16" then check_C16 args
           else if p =? "C20" then check_C20 args
+          else if p =? "C09" then check_C09 args
           else [A "unknown-property"]))
   | _ => L [A "?"; A "decode-error"]
   end.
